@@ -136,6 +136,19 @@ def check_invariants(inp):
     params = hk.data_structures.to_immutable_dict({'lin': {'w': jnp.ones(3), 'b': jnp.zeros(1)},
                                                    'emb': {'table': jnp.arange(4.0)}})
     grads = jax.tree_util.tree_map(lambda x: jnp.ones_like(x) * 0.5, params)
+    # plain nested dicts are params too: same contract, and the caller's params (inner per-module dicts included) keep
+    # their values - the optimizer returns new params, it does not write into the ones it was given
+    plain = {'lin': {'w': jnp.ones(3), 'b': jnp.zeros(1)}, 'emb': {'table': jnp.arange(4.0)}}
+    pgrads = jax.tree_util.tree_map(lambda x: jnp.ones_like(x) * 0.5, plain)
+    snap = jax.tree_util.tree_map(np.asarray, plain)
+    popt = optimizers.ignore_grads_haiku(optimizers.sgd(0.1), [('emb', 'table')])
+    _, pout = popt.apply(pgrads, popt.init(plain), plain)
+    if not leaves_equal(plain, snap) or sorted(plain) != sorted(snap) or any(sorted(plain[m_]) != sorted(snap[m_]) for m_ in snap):
+      return ('ignore_grads_haiku.apply on plain nested dict params changed the params it was given: '
+              f'{jax.tree_util.tree_map(lambda a: np.asarray(a).tolist(), plain)}')
+    if not np.array_equal(np.asarray(pout['emb']['table']), np.asarray(snap['emb']['table'])) or \
+        not np.allclose(np.asarray(pout['lin']['w']), np.asarray(snap['lin']['w']) - 0.05):
+      return 'ignore_grads_haiku on plain nested dict params: ignored entry changed or trainable entry not updated like sgd'
     for base in (optimizers.sgd(0.1), optimizers.sgd(0.1, momentum=0.9), optimizers.adam(0.1)):
       # two ignored parameters of the SAME module (freezing a whole layer), for two steps
       names2 = [('lin', 'w'), ('lin', 'b')]
